@@ -91,8 +91,9 @@ func init() {
 				return hiddenFalse
 			}
 
+			outer := a.runtime.scope
 			a.runtime.newScope()
-			defer a.runtime.releaseScope()
+			defer func() { a.runtime.scope = outer }()
 
 			a.runtime.blocks = t.processedBlocks
 			root := t.Root
@@ -117,8 +118,9 @@ func init() {
 				panic(fmt.Errorf("exec(%s, %v): %w", a.Get(0), a.Get(1), err))
 			}
 
+			outer := a.runtime.scope
 			a.runtime.newScope()
-			defer a.runtime.releaseScope()
+			defer func() { a.runtime.scope = outer }()
 
 			w := a.runtime.Writer
 			defer func() { a.runtime.Writer = w }()
